@@ -42,7 +42,7 @@ def %(name)s(rest: List[Tuple[int, int]]) -> bool:
     built = []                   # constructed, not yet entered: (kind, object)
     entered = []                 # entered contexts, innermost last
     ok = True
-    for op, a in [FIRST] + list(rest):
+    for op, a in (FIRST if isinstance(FIRST, list) else [FIRST]) + list(rest):
         if op == 0:
             built.append((0, synapgrad.no_grad()))
         elif op == 1:
@@ -147,7 +147,7 @@ def %(name)s(rest: List[Tuple[int, int]]) -> bool:
     entered = []
     live = []
     ok = True
-    for op, a in [FIRST] + list(rest):
+    for op, a in (FIRST if isinstance(FIRST, list) else [FIRST]) + list(rest):
         grad_on, retain_on = mode[-1]
         if op == 0:
             c = synapgrad.no_grad(); c.__enter__(); _LEFT.append(c); entered.append(c); mode.append((False, retain_on))
@@ -488,16 +488,26 @@ N_OPS3 = H3.count('\n    ("')
 
 
 def partitions(tier):
+    """quick: every first action fixed + 3 (h1) / 2 (h2) symbolic followers.  thorough: histories one action longer; a single
+    fixed first action no longer finishes there for the actions that create state (9 of 59 partitions timed out at 900 s), so the
+    thorough tier fixes a *prefix of two* actions - all 9 x 18 prefixes of h1; for h2 every (tensor-creating first action) x
+    (any second action) - and keeps the same number of symbolic followers as quick, which covers the same histories"""
     parts = []
-    l1 = 3 if tier == "quick" else 4
-    for op in range(8):
-        for a in ((0, 1) if op == 2 else (0,)):
-            parts.append(("h1", (op, a), l1))
-    l2 = 2 if tier == "quick" else 3
-    for op in range(14):
-        args = {3: (0, 1), 4: (0, 1, 2, 3), 12: (0, 1), 5: (0, 1), 6: (0, 1, 2, 3), 7: (0, 1, 2, 3), 8: (0, 1), 9: (0, 1), 10: (0,), 11: (0,)}.get(op, (0,))
-        for a in args:
-            parts.append(("h2", (op, a), l2))
+    h1_first = [(op, a) for op in range(8) for a in ((0, 1) if op == 2 else (0,))]
+    h1_any = [(op, a) for op in range(9) for a in (0, 1)]
+    h2_args = {3: (0, 1), 4: (0, 1, 2, 3), 12: (0, 1), 5: (0, 1), 6: (0, 1, 2, 3), 7: (0, 1, 2, 3), 8: (0, 1), 9: (0, 1), 10: (0,), 11: (0,)}
+    h2_first = [(op, a) for op in range(14) for a in h2_args.get(op, (0,))]
+    if tier == "quick":
+        parts += [("h1", f, 3) for f in h1_first]
+        parts += [("h2", f, 2) for f in h2_first]
+    else:
+        parts += [("h1", [f, g], 3) for f in h1_first for g in h1_any]
+        creating = (3, 4, 12, 13)
+        for f in h2_first:
+            if f[0] in creating:
+                parts += [("h2", [f, g], 2) for g in h2_first]
+            else:
+                parts.append(("h2", f, 3))
     step = 8 if tier == "quick" else 4
     for lo in range(0, N_OPS3, step):
         parts.append(("h3", (lo, min(N_OPS3, lo + step)), 0))
@@ -545,9 +555,9 @@ def main(tier, seed):
         results = list(ex.map(job, files))
     return finish(PROP, tier, seed, results, t0, {
         "h1": "mode stack: ops 0 construct no_grad, 1 construct retain_grads, 2 enter a constructed one, 3 with no_grad, "
-              "4 with retain_grads, 5 exit, 6 exit by exception, 7 probe, 8 re-enter an object that is already entered; first action fixed per partition + <= %d symbolic" % (3 if tier == "quick" else 4),
+              "4 with retain_grads, 5 exit, 6 exit by exception, 7 probe, 8 re-enter an object that is already entered; %s" % ("first action fixed per partition + <= 3 symbolic followers" if tier == "quick" else "a prefix of two actions fixed per partition (all 9 x 18) + <= 3 symbolic followers"),
         "h2": "flags/backward: ops 0-2 contexts, 3 float leaf, 4 int leaf, 5 unary, 6 binary, 7 set requires_grad, "
-              "8 retain_grad, 9 backward, 10 numpy(), 11 detach, 12 float leaf from int data via dtype=, 13 computed leaf flagged afterwards; first action fixed per partition + <= %d symbolic" % (2 if tier == "quick" else 3),
+              "8 retain_grad, 9 backward, 10 numpy(), 11 detach, 12 float leaf from int data via dtype=, 13 computed leaf flagged afterwards; %s" % ("first action fixed per partition + <= 2 symbolic followers" if tier == "quick" else "first action fixed + <= 3 symbolic followers; behind a tensor-creating first action a prefix of two actions (every second action) + <= 2 symbolic followers"),
         "h4": "retention of intermediate gradients: chain leaf -> y -> w -> (root), each intermediate computed inside/outside retain_grads and "
               "marked with retain_grad() or not, backward inside/outside a block, optionally a second backward in the opposite setting "
               "(7 symbolic booleans, 2 operation pairs)",
